@@ -61,7 +61,7 @@ def tokens(src):
         out.append((k, t, min(nl, 2)))
         nl = 0
     if nl >= 2 and out:
-        out.append(("eof", "", 2))  # blank lines at the end of the module are layout too
+        out.append(("eof", "", min(nl, 4)))  # blank lines at the end of the module are layout too
     return out
 
 
@@ -81,6 +81,9 @@ def render(toks, sep=" ", nl="\n", indent=False):
     depth = 0
     prev = None
     for k, t, n in toks:
+        if k == "eof":
+            out.append(nl * max(n - 1, 0))
+            continue
         if prev is None and n:
             out.append(nl * min(n, 2))  # leading blank lines are layout too
         if prev is not None:
